@@ -6,7 +6,9 @@
     (accepted   DEF (registry "n"…) (impls ("I" "o"…)…))                    → (accepted wf closed implsExact kindsOk featuresOk namesOk)  (six booleans)
     (new DEF)                                                                → (reg (registry "n"…) (impls ("I" "o"…)…))
     (clone BASE DEF)                                                         → DEF'   (the model's clone; identities ≥ BASE are new)
-    (rebuild DEF (registry …) (impls …) (features …))                        → DEF' | (error "…")   (rebuild (introspect S F), table restricted to what Inspect reaches)
+    (rebuild DEF (registry …) (impls …) (features …) keep|drop)              → DEF' | (error "…")   (rebuildKeep / rebuild of introspect S F — with / without fix patch 06 —,
+                                                                               table restricted to what Inspect reaches; a default `(float "text")` in the
+                                                                               answer = not determined by the model)
     (marshal DEF TYPE VAL)                                                   → (some "text") | none
     (roundtrip DEF TYPE VAL "text")                                          → (rt covered nf parses coerces)   (four booleans: the value is of the
                                                                                classes default_roundtrip covers; it is in coercion normal form; the
@@ -30,6 +32,7 @@ import ApiFu.Common.Sexp
 import ApiFu.Common.Loop
 import ApiFu.C10.Model
 import ApiFu.C10.Literal
+import ApiFu.C10.RebuildKeep
 
 open ApiFu ApiFu.C10
 
@@ -375,10 +378,10 @@ def handleWith (cur : Option GDef) (line : String) : String :=
     match b.nat?, pDef d with
     | some b, some d => toString (sDef (cloneDef b d))
     | _, _ => err "bad-arguments"
-  | some (.list [.atom "rebuild", d, reg, impls, feats]) =>
+  | some (.list [.atom "rebuild", d, reg, impls, feats, .atom keep]) =>
     match pDef d, pRegistry reg, pImpls impls, pFeatures feats with
     | some d, some reg, some impls, some F =>
-      match rebuild (introspect (mkSchema d reg impls) F) with
+      match (if keep == "keep" then rebuildKeep else rebuild) (introspect (mkSchema d reg impls) F) with
       | .ok g =>
         -- the harness sees only what is pointer-reachable from the rebuilt definition
         let reach := (registries g).names
